@@ -41,7 +41,7 @@ PROPS = {
 
 # ---- second engine of C10: the real loop with the REAL driver over pipes (tools/engines/realloop.py)
 REALLOOP_TRUST = [
-    "realloop engine: what LoopEnv.v only ASSUMES (edge-triggered readiness + drain-until-Busy never loses an event) is tested against the kernel: the real do_remapping_loop_one_device runs with the real RealDriver (mio/epoll, DevInputReader, TabletModeSwitchReader, DevInputWriter; hook remapping_loop::verif::run_real_driver_on_fds) in a child process over three pipes, and the bytes it writes are compared with concat (map encode_batch (filter non_nil (mrun L init inputs))) computed by the extracted definitions (coq/extract/Extract_realloop.v: Wire.decode_stream, MapperInv.mrun, LoopSpec.non_nil, Wire.encode_batch). Trusted there: pipes in place of evdev/uinput nodes (whole records only: the parent keeps the pipes far from full), the parent's bookkeeping of what it wrote, FIONREAD as the witness that input was read, a no-progress deadline of 6 s as the only timing element.",
+    "realloop engine: what LoopEnv.v only ASSUMES (edge-triggered readiness + drain-until-Busy never loses an event) is tested against the kernel: the real do_remapping_loop_one_device runs with the real RealDriver (mio/epoll, DevInputReader, TabletModeSwitchReader, DevInputWriter; hook remapping_loop::verif::run_real_driver_on_fds) in a child process over three pipes, and the bytes it writes are compared with Pipeline.device_bytes_out L (bytes written to the keyboard pipe) — followed by Pipeline.device_bytes_tablet_on when a switch On is written — computed by the extracted definitions (coq/extract/Extract_realloop.v); these are the very functions the theorems C10_bytes_out_depend_only_on_events_read, C10_bytes_out_after_a_tablet_event, C10_no_stuck_keys_at_the_device and C18_virtual_keyboard_sees_mapper_outputs are about (coq/theories/Pipeline.v: reader, loop under any chunking, mapper, writer composed). Trusted there: pipes in place of evdev/uinput nodes (whole records only: the parent keeps the pipes far from full), the parent's bookkeeping of what it wrote, FIONREAD as the witness that input was read, a no-progress deadline of 6 s as the only timing element.",
 ]
 REALLOOP_RULE = (" || realloop engine: 5 fixed layouts without Special repeat + seeded family_multi layouts with Special repeats replaced by Normal/Disabled "
                  "+ the builtin layouts; key histories of 20-400 events drawn as above; each history is turned into a record script (bare, or evdev-like "
@@ -55,7 +55,7 @@ PROPS["C10"] = dict(PROPS["C10"],
                     trusted=LOOP_TRUST + REALLOOP_TRUST,
                     rule=LOOP_RULE + REALLOOP_RULE,
                     explanation=PROPS["C10"]["explanation"] +
-                    ". Second engine realloop: the same statement is checked end to end on the real loop with the real epoll driver over pipes "
+                    ". Bytes level (Pipeline.v): for every byte stream on the keyboard device and every chunking, the bytes written are device_bytes_out of the byte prefix that was read, reading them back with the tool's own reader gives the mapper's event sequence, and when every physical key is up again nothing is left down on the virtual keyboard (C10_bytes_out_*, C10_no_stuck_keys_at_the_device*, C10_every_write_keeps_the_device_in_step: every write incl. timer chords keeps the device in step with the mapper's bookkeeping). Second engine realloop: the same statement is checked end to end on the real loop with the real epoll driver over pipes "
                     "(any batching of the input into write(2) calls gives exactly the bytes of the model's sends; nothing stays unread while the loop "
                     "sleeps; nothing is written after the end); a deviation is reported as clause C10.real_epoll with layout, history, batching and the "
                     "first differing record. A difference that is exactly what the in-process real Mapper computes is reported in class OBS_C10 instead "
